@@ -23,7 +23,7 @@ SETTERS = {
     "eqelem": ("set__flag_compare_return_equal_elements", "SetEqElem"),
     "place": ("set__flag_compare_return_place", "SetPlace"),
 }
-KEYS = ["a", "b", "k", "id", "n", "Q", "x_1", "Ab", "ab"]
+KEYS = ["a", "b", "k", "id", "n", "Q", "x_1", "Ab", "ab", "Am ", " n"]     # the last two: blank-padded names (CSV-header style)
 STREAM = dict(requires=["Compare.Util", "Compare.Flags", "Compare.Match", "Compare.Model"],
               itype="cinput", model="obs_compare")
 
@@ -395,6 +395,8 @@ def gen_leaf(rng):
         return rng.randint(-2, 6)
     if r < 0.62:
         return rng.choice([0.5, 1.5, -2.0, 1.0, 3.0])
+    if r < 0.66:
+        return rng.choice(["7", "1.50", 2 ** 53, "1"])
     return rng.choice(["", "x", "yz", "a b", "1", "X", "Yz", "True", "1.0"])
 
 
@@ -444,6 +446,27 @@ def retype(rng, v):
     return None
 
 
+def float_twin(v):
+    """another value of the same type whose float() image is the same (None if there is none at hand)"""
+    if isinstance(v, str):
+        try:
+            f = float(v)
+        except ValueError:
+            return None
+        for cand in (v + ".0" if "." not in v and "e" not in v.lower() else None, "0" + v, v + "0" if "." in v else None,
+                     v[:-2] if v.endswith(".0") else None):
+            if cand and cand != v:
+                try:
+                    if float(cand) == f:
+                        return cand
+                except ValueError:
+                    pass
+        return None
+    if isinstance(v, int) and not isinstance(v, bool) and abs(v) >= 2 ** 53:
+        return v + 1 if float(v + 1) == float(v) else v - 1 if float(v - 1) == float(v) else None
+    return None
+
+
 def mutate(rng, t, keys=KEYS):
     """one edit: changed value, changed type, removed / added key, removed / appended /
     permuted list items, reordered dict keys, replaced subtree"""
@@ -460,7 +483,10 @@ def mutate(rng, t, keys=KEYS):
     for st in p[:-1]:
         par = par[st]
     r = rng.random()
-    if r < 0.22:
+    tw = float_twin(par[p[-1]])
+    if tw is not None and rng.random() < 0.5:
+        par[p[-1]] = tw              # differs, but only for an exact comparison: '1' / '1.0', '7' / '07', 2**53 / 2**53+1
+    elif r < 0.22:
         par[p[-1]] = gen_leaf(rng)
     elif r < 0.34:
         par[p[-1]] = retype(rng, par[p[-1]])
@@ -637,7 +663,7 @@ PROP = _SharedCodeNotACheck
 # ---------------------------------------------------------------------------------
 # record lists with a composite key (C08; also used by C09 / C10)
 # ---------------------------------------------------------------------------------
-KEY_FIELDS = {"id": [1, 2, 3, 4, 5, 6, 7], "n": ["a", "b", "c", "A", "1"], "t": [True, 1.5, "x", "X", None, 0, 1, "a"]}
+KEY_FIELDS = {"id": [1, 2, 3, 4, 5, 6, 7, 1000001, 1000002, 2500001.5, 2500002.5], "n": ["a", "b", "c", "A", "1"], "t": [True, 1.5, "x", "X", None, 0, 1, "a"]}
 
 
 def record_key(rec, ck):
